@@ -12,7 +12,10 @@ import (
 	"sort"
 	"strconv"
 	"strings"
+	"sync"
 	"time"
+
+	"golang.org/x/tools/go/ssa"
 )
 
 var verifRoot = "/verif"
@@ -215,12 +218,25 @@ func cmdCheck(args []string) int {
 		maxPaths = 400000
 	}
 	var results []*obligationResult
+	e.slots = make(chan struct{}, e.workers)
+	var sel []*ssa.Function
 	for _, h := range hs {
 		if *only != "" && !re.MatchString(h.Name()) {
 			continue
 		}
-		r := e.runObligation(h, maxPaths)
-		results = append(results, r)
+		sel = append(sel, h)
+	}
+	results = make([]*obligationResult, len(sel))
+	var wg sync.WaitGroup
+	for i, h := range sel {
+		wg.Add(1)
+		go func(i int, h *ssa.Function) {
+			defer wg.Done()
+			results[i] = e.runObligation(h, maxPaths)
+		}(i, h)
+	}
+	wg.Wait()
+	for _, r := range results {
 		fmt.Printf("obligation %-34s paths=%d ended=%d asserts=%d discharged=%d violations=%d queries=%d solver=%.1fs wall=%.1fs merges=%d\n",
 			r.Name, r.Paths, r.Ended, r.Asserts, r.Discharged, len(r.Violations), r.Queries, r.SolverTime.Seconds(), r.Wall.Seconds(), r.Merges)
 		for _, s := range r.Incon {
